@@ -370,9 +370,54 @@ def register(E):
     I['crypto/rand.Read'] = rand_read
 
     # ---------------------------------------------------------------- sync
-    for n in ('(*sync.Mutex).Lock', '(*sync.Mutex).Unlock', '(*sync.RWMutex).Lock', '(*sync.RWMutex).Unlock',
-              '(*sync.RWMutex).RLock', '(*sync.RWMutex).RUnlock'):
-        I[n] = lambda E, a: None
+    # mutexes: a lock table per path. A Lock on a held mutex blocks the goroutine (scheduler) or the harness
+    # (Blocked: a deadlock of the sequential kernel); state: [writer held, readers]
+    def mu_state(E, p):
+        return E.mutexes.setdefault((id(p.obj), p.path), [False, 0])
+
+    def mu_wait(E, pred, what):
+        if pred():
+            return
+        if E.in_goroutine():
+            E.sched.block(pred, what=what)
+            return
+        raise Blocked()
+
+    def mu_lock(E, args):
+        st = mu_state(E, args[0])
+        mu_wait(E, lambda: not st[0] and st[1] == 0, 'Mutex.Lock')
+        st[0] = True
+    I['(*sync.Mutex).Lock'] = mu_lock
+    I['(*sync.RWMutex).Lock'] = mu_lock
+
+    def mu_unlock(E, args):
+        st = mu_state(E, args[0])
+        if not st[0]:
+            raise GoPanic('sync: unlock of unlocked mutex')
+        st[0] = False
+    I['(*sync.Mutex).Unlock'] = mu_unlock
+    I['(*sync.RWMutex).Unlock'] = mu_unlock
+
+    def mu_rlock(E, args):
+        st = mu_state(E, args[0])
+        mu_wait(E, lambda: not st[0], 'RWMutex.RLock')
+        st[1] += 1
+    I['(*sync.RWMutex).RLock'] = mu_rlock
+
+    def mu_runlock(E, args):
+        st = mu_state(E, args[0])
+        if st[1] <= 0:
+            raise GoPanic('sync: RUnlock of unlocked RWMutex')
+        st[1] -= 1
+    I['(*sync.RWMutex).RUnlock'] = mu_runlock
+
+    def mu_trylock(E, args):
+        st = mu_state(E, args[0])
+        if st[0] or st[1]:
+            return False
+        st[0] = True
+        return True
+    I['(*sync.Mutex).TryLock'] = mu_trylock
 
     def wg_key(p):
         return (id(p.obj), p.path)
@@ -1058,12 +1103,18 @@ def register(E):
     def time_after(E, args):
         """time.After(d): the timer is treated as having fired (the channel is ready); d is logged"""
         E.timer_log.append(args[0])
+        ch = ChanObj(1, E.epoch)
+        if getattr(E, 'timers_pending', False):
+            return ch  # the harness asked for timers that have not elapsed yet
         if type(args[0]) is int and args[0] > 0:
             E.vtime += args[0]  # virtual time advances by the waits that are treated as elapsed
-        ch = ChanObj(1, E.epoch)
         ch.items.append(E.zero('time.Time'))
         return ch
     I['time.After'] = time_after
+
+    def v_timers_pending(E, args):
+        E.timers_pending = bool(args[0])
+    I['@verifTimersPending'] = v_timers_pending
 
     def time_newticker(E, args):
         E.timer_log.append(args[0])
@@ -1071,7 +1122,8 @@ def register(E):
         vals = [E.zero(f['type']) for f in t.fields]
         ch = ChanObj(1, E.epoch)
         for k in range(E.opt.get('ticks', 1)):
-            ch.items.append(E.zero('time.Time'))
+            # with the clock stub a tick carries a clock reading (the instant it fired), else the zero Time
+            ch.items.append(I['time.Now'](E, []) if E.opt.get('now_stub') and 'time.Now' in I else E.zero('time.Time'))
         ch.cap = max(1, len(ch.items))
         for i, f in enumerate(t.fields):
             if f['name'] == 'C':
@@ -1080,6 +1132,35 @@ def register(E):
     I['time.NewTicker'] = time_newticker
     I['(*time.Ticker).Stop'] = lambda E, a: None
     I['(*time.Timer).Stop'] = lambda E, a: True
+
+    def time_newtimer(E, args):
+        """time.NewTimer(d): a one-shot timer treated as having fired once (like time.After) unless the harness asked
+        for pending timers; only Reset re-arms it. The wait is logged when the tick is received, not at creation."""
+        t = E.types['time.Timer'].u
+        vals = [E.zero(f['type']) for f in t.fields]
+        ch = ChanObj(1, E.epoch)
+        ch.timer_d = args[0]
+        if not getattr(E, 'timers_pending', False):
+            ch.items.append(E.zero('time.Time'))
+        for i, f in enumerate(t.fields):
+            if f['name'] == 'C':
+                vals[i] = ch
+        return Ptr(E.new_obj(thaw(tuple(vals))), ())
+    I['time.NewTimer'] = time_newtimer
+
+    def time_timer_reset(E, args):
+        t = E.types['time.Timer'].u
+        v = args[0].obj.v
+        for k in args[0].path:
+            v = v[k]
+        for i, f in enumerate(t.fields):
+            if f['name'] == 'C':
+                ch = v[i]
+                ch.timer_d = args[1]
+                if not ch.items and not getattr(E, 'timers_pending', False):
+                    ch.items.append(E.zero('time.Time'))
+        return True
+    I['(*time.Timer).Reset'] = time_timer_reset
 
     def v_timerlog_len(E, args):
         return len(E.timer_log)
